@@ -60,6 +60,18 @@ WriteOK(s, t, c) == WellFormedReq(s, t, c) /\ \A d \in 1..Rank : (d = 1 /\ Unlim
 
 Max1(x) == IF x < 1 THEN 1 ELSE x
 NData(c) == IF Len(c) = 1 THEN Max1(c[1]) ELSE IF Len(c) = 2 THEN Max1(c[1]) * Max1(c[2]) ELSE Max1(c[1]) * Max1(c[2]) * Max1(c[3])
+\* ---- layout descriptors (opaque for expectations; they only restrict what is generated) ----
+LKind(ly) == IF ly = <<>> THEN "contig" ELSE ly[1]
+\* non-chunked compressed (and n-bit) datasets are written in full from their start (C05's precondition)
+FullOnly(ly) == LKind(ly) \in {"comp", "nbit"}
+\* chunked / compressed datasets have no unlimited dimension; a block size only matters for unlimited ones
+LayoutFits(ly, sh) == /\ (LKind(ly) \in {"chunk", "chunkcomp", "comp", "nbit", "ext"}) => sh[1] # 0
+                      /\ (LKind(ly) = "blk") => sh[1] = 0
+                      /\ (LKind(ly) \in {"chunk", "chunkcomp"}) =>
+                             Len(sh) = (IF LKind(ly) = "chunk" THEN Len(ly) - 2 ELSE Len(ly) - 3)
+ChunkShape(ly) == IF LKind(ly) = "chunk" THEN SubSeq(ly, 2, Len(ly) - 1) ELSE SubSeq(ly, 3, Len(ly) - 1)
+IsFull(s, t, c) == \A d \in 1..Rank : s[d] = 0 /\ t[d] = 1 /\ c[d] = shape[d]
+
 Strided(t) == \E d \in 1..Len(t) : t[d] # 1
 ValK(k, n) == ((k * 41 + n * 3) % 997) + 1
 Val(c0, n) == ValK(c0 % DataMod, n)
@@ -71,6 +83,8 @@ Init == /\ st = "init" /\ shape = <<>> /\ ext = 0 /\ cells = <<>> /\ fillset = F
 \* SDstart(create); SDcreate(shape); [SDsetfillvalue]; [SDsetfillmode(NOFILL)]; layout calls
 Create(sh, ly, fs, fm) ==
     /\ st = "init" /\ st' = "open"
+    /\ LayoutFits(ly, sh)
+    /\ (LKind(ly) = "nbit") => ~fm        \* (the fill value does not survive the n-bit projection: no-fill mode)
     /\ shape' = sh /\ layout' = ly /\ fillset' = fs /\ fillmode' = fm
     /\ ext' = 0 /\ written' = FALSE
     /\ cells' = [x \in Box([d \in 1..Len(sh) |-> IF d = 1 /\ sh[1] = 0 THEN 0 ELSE sh[d]]) |-> IF fm THEN F ELSE Zc]
@@ -84,6 +98,7 @@ Create(sh, ly, fs, fm) ==
 \* SDwritedata(start, stride, count, data); k selects the (distinguishable) payload of this call
 WriteK(s, t, c, k) ==
     /\ st = "open" /\ Len(s) = Rank
+    /\ FullOnly(layout) => IsFull(s, t, c)
     /\ IF WriteOK(s, t, c)
        THEN LET sel == Sel(s, t, c)
                 newext == IF Unlim /\ LastIdx(s, t, c, 1) + 1 > ext THEN LastIdx(s, t, c, 1) + 1 ELSE ext
@@ -123,6 +138,26 @@ Read(s, t, c) ==
             /\ Log("Read", [start |-> s, stride |-> t, count |-> c], [ret |-> FAIL])
     /\ UNCHANGED <<st, shape, ext, cells, fillset, fillmode, written, layout, wc>>
 
+\* ---- whole-chunk access (SDwritechunk / SDreadchunk) on chunked datasets ----
+\* the cells of the chunk with chunk-coordinates o, in the chunk buffer's row-major order; cells of an edge
+\* chunk that lie outside the dataset ("ghost" cells) are marked by a coordinate outside the extent
+ChunkSel(o) == Sel([d \in 1..Rank |-> o[d] * ChunkShape(layout)[d]], [d \in 1..Rank |-> 1], ChunkShape(layout))
+InData(x) == \A d \in 1..Rank : x[d] < shape[d]
+ValidChunk(o) == \A d \in 1..Rank : o[d] >= 0 /\ o[d] * ChunkShape(layout)[d] < shape[d]
+WriteChunk(o, k) ==
+    /\ st = "open" /\ LKind(layout) \in {"chunk", "chunkcomp"} /\ Len(o) = Rank /\ ValidChunk(o)
+    /\ LET sel == ChunkSel(o)  pos(x) == CHOOSE n \in 1..Len(sel) : sel[n] = x IN
+       /\ cells' = [x \in DOMAIN cells |-> IF \E n \in 1..Len(sel) : sel[n] = x THEN ValK(k, pos(x)) ELSE cells[x]]
+       /\ Log("WriteChunk", [origin |-> o, data |-> [n \in 1..Len(sel) |-> ValK(k, n)]], [ret |-> 0])
+    /\ written' = TRUE /\ wc' = wc + 1
+    /\ UNCHANGED <<st, shape, ext, fillset, fillmode, layout>>
+ReadChunk(o) ==
+    /\ st = "open" /\ LKind(layout) \in {"chunk", "chunkcomp"} /\ Len(o) = Rank /\ ValidChunk(o)
+    /\ LET sel == ChunkSel(o) IN
+       /\ \A n \in 1..Len(sel) : InData(sel[n]) => cells[sel[n]] # Zc
+       /\ Log("ReadChunk", [origin |-> o], [ret |-> 0, data |-> [n \in 1..Len(sel) |-> IF InData(sel[n]) THEN cells[sel[n]] ELSE Zc]])
+    /\ UNCHANGED <<st, shape, ext, cells, fillset, fillmode, written, layout, wc>>
+
 \* SDgetinfo: rank, current dimension sizes
 Info ==
     /\ st = "open"
@@ -140,6 +175,7 @@ Next ==
     \/ \E sh \in Shapes, ly \in Layouts, fs \in BOOLEAN, fm \in BOOLEAN : Create(sh, ly, fs, fm)
     \/ \E q \in Reqs(Rank) : Write(q[1], q[2], q[3])
     \/ \E q \in Reqs(Rank) : Read(q[1], q[2], q[3])
+    \/ \E o \in [1..Rank -> {0, 1, 2}] : WriteChunk(o, (wc + 1) % DataMod) \/ ReadChunk(o)
     \/ Info \/ Reopen
 Spec == Init /\ [][Next]_vars
 
